@@ -5,5 +5,9 @@ func init() {
 	tableSpecs = []tableSpec{
 		{key: "symtable|SymTable.AddDef", prop: "C03", rule: "C03.R3", raises: true, show: []string{"append"},
 			doc: "symbol definition: flags are or-ed into an existing symbol, a second DefParam for the same name is a SyntaxError (duplicate argument), parameters are appended to Varnames in order, a global declaration is mirrored into the module table [symtable.c symtable_add_def]"},
+		{key: "py|Function.M__get__", prop: "C16", rule: "C16.R4", show: []string{"*"}, doc: "a function read through an instance binds the instance; read through the class it stays a function"},
+		{key: "py|Method.M__get__", prop: "C16", rule: "C16.R4", show: []string{"*"}, doc: "a built-in method read through an instance binds the instance; read through the class it stays unbound"},
+		{key: "py|ClassMethod.M__get__", prop: "C16", rule: "C16.R4", show: []string{"*"}, doc: "a classmethod binds the owner class (the type of the instance when no owner is given), never the instance"},
+		{key: "py|StaticMethod.M__get__", prop: "C16", rule: "C16.R4", show: []string{"*"}, doc: "a staticmethod binds nothing: the plain callable is returned"},
 	}
 }
